@@ -284,6 +284,7 @@ func runC02(c *Ctx) {
 	ruleNoEarlyExit(c, "C02.6", "(*Graph).buildPoolStmtsSimple", "generateStmts", "(*InjectorChainStmt).Stmt")
 
 	ruleTypeIdentity(c, "C02.7", genPkg)
+	ruleSetVariableInitializer(c, "C02.9")
 	ruleGuardReceivers(c, "C02.6")
 	ruleFieldAccessSync(c, "C02.6")
 	ruleSnapshotReadOnly(c, "C02.6")
